@@ -69,6 +69,11 @@ func checkC08(c *Ctx) {
 			})
 		}
 		if fn := p.Func(pk, "Vector", "AsyncReadFrom"); fn != nil {
+			// kept as a thin wrapper of a generalised function (AsyncReadFromWithOptions(r, opts...)):
+			// the protocol is that of the function that does the work (the reader stays parameter 0)
+			if tgt, pm := thinWrapperTarget(fn); tgt != nil && pm[1] == 1 {
+				fn = tgt
+			}
 			RequireFacts(c, p, "C08.guard", fn, AcceptNilErr, nil, []Req{
 				{"LengthPrefixRead", `^noerr io\.ReadFull\(p0,(.*\[:4\]|local:\[4\]byte)\)`},
 			})
